@@ -24,13 +24,16 @@ TextOf(C, i) == IF i > 0 THEN Valid(C[i]) ELSE Invalid(BadClasses[-i])
 \* st: how the harness writes the (valid) texts - 1 compact, 2 pretty-printed over several lines, 3 padded with
 \* white space and with object keys in reverse order; the model abstracts texts to values, so st cannot matter
 NBad == Len(BadClasses)
-Scenarios == [r : (1..Len(RV18)) \cup {-q : q \in 1..NBad}, d : (1..Len(DV18)) \cup {-q : q \in 1..(NBad + 1)}, mode : {1, 2, 3}, st : {1, 2, 3}]
+Scenarios == [r : (1..Len(RV18)) \cup {-q : q \in 1..NBad}, d : (1..Len(DV18)) \cup {-q : q \in 1..(NBad + 2)}, mode : {1, 2, 3}, st : {1, 2, 3}]
              \cup [r : {1, 2, 11}, d : {2, 4, 7}, mode : {1, 2, 3}, st : {4}]
              \* st 5: the compact text followed by white space only (so a text starting with '-' still starts with it)
              \cup [r : {1, 6, 7, 11}, d : {2, 3, 6}, mode : {1, 2, 3}, st : {5}]
-\* class -(NBad+1): invalid UTF-8, only on standard input; invalid texts need no style variants
-Admissible(s) == (s.d = -(NBad + 1) => s.mode \in {2, 3}) /\ ((s.r < 0 \/ s.d < 0) => s.st = 1)
-DataTextOf(s) == IF s.d = -(NBad + 1) THEN Invalid("badutf8") ELSE TextOf(DV18, s.d)
+\* classes -(NBad+1), -(NBad+2): invalid UTF-8 (before the document / inside a string of an otherwise well-formed
+\* document), only on standard input; invalid texts need no style variants
+Admissible(s) == (s.d <= -(NBad + 1) => s.mode \in {2, 3}) /\ ((s.r < 0 \/ s.d < 0) => s.st = 1)
+DataTextOf(s) == IF s.d = -(NBad + 1) THEN Invalid("badutf8")
+                 ELSE IF s.d = -(NBad + 2) THEN Invalid("badutf8str")
+                 ELSE TextOf(DV18, s.d)
 Junk == Invalid("junk")     \* what is on standard input when the data comes as an argument: must be ignored
 
 Init == /\ sc \in {s \in Scenarios : Admissible(s)}
